@@ -363,6 +363,7 @@ func nackWriter(track *rtpUpTrack) {
 	})
 
 	if len(nacks) > 0 {
+		verifTraceSeqnos(track, VerifTraceWriterNACK, nacks)
 		track.sendNACKs(nacks)
 	}
 }
